@@ -93,11 +93,32 @@ class AbsWatch(Monitor):
                             cyc, nm = i.identity.split('/')
                             stale = bool(cdb) and (cyc, nm) in cdb['pool'] and (
                                 kk[2] in cdb['outputs'].get((kk[1], kk[0]), ()))
+                            preds = (['crash_before_pool_table_rewrite']
+                                     if stale else [])
+                            pooled = {x.identity for x in schd.pool.get_tasks()}
+                            earlier_done = any(
+                                k2[1] == nm and k2[0] != cyc
+                                and f'{k2[0]}/{k2[1]}' not in pooled
+                                and self.res.prog.ppoint(k2[0]) <
+                                self.res.prog.ppoint(cyc)
+                                for _t, k2 in h.world.launch_log)
+                            if not earlier_done:
+                                # ... or could not be respawned (its row says
+                                # waiting with no outputs: taken for a task
+                                # removed by a suicide trigger)
+                                earlier_done = any(
+                                    m.startswith('Not respawning ') and
+                                    m.split()[2].endswith('/' + nm)
+                                    for _l, m in h.log.records)
+                            if earlier_done and not stale:
+                                # the first (listed) child of the absolute
+                                # output had already run and left the pool
+                                # when the output completed
+                                preds.append('first_abs_child_already_finished')
                             self.res.violate('abs_prerequisite_not_satisfied', {
                                 'task': i.identity, 'abs_output': list(kk),
                                 'incarnation': h.incarnation,
-                                'predicates': ['crash_before_pool_table_rewrite']
-                                if stale else []})
+                                'predicates': preds})
 
 
 def run(params):
@@ -133,7 +154,26 @@ def run(params):
                 if rule == 'parentless_chain_broken':
                     detail['property'] = 'C01'
         return preds
-    r = generic_run(PID, params, knobs=KNOBS, policy='complete',
+    def prog_hook(prog, rng2):
+        # absolute triggers on custom outputs (message differs from name);
+        # not in crash mode, whose window predicates are keyed by name
+        if how == 'crash':
+            return
+        for s_ in prog.sections:
+            for e, _tg in s_.lines:
+                for a in atoms(e):
+                    cust = prog.tasks[a.task].customs
+                    if a.is_abs() and cust and rng2.random() < 0.5:
+                        a.output = rng2.choice(cust)
+                        aw.custom_abs = True
+
+    knobs = dict(KNOBS)
+    if how == 'stop':
+        # long, tightly runahead-limited runs: dependents of an absolute
+        # output are still being spawned after the restart
+        knobs.update({'span': (5, 9), 'p_runahead': 0.9})
+    r = generic_run(PID, params, knobs=knobs, policy='complete',
+                    prog_hook=prog_hook,
                     modes=('none', 'sched'),
                     monitors=[aw, CommandDriver(cmds)], end_check=end_check,
                     lifecycle=lifecycle)
